@@ -1,5 +1,6 @@
-\* C13 in-place edits (thorough): histories of up to three mutator calls on the parse of the one-atom relation and of
-\* the bare name, of up to two on the three-atom relation; the plain formatter; every state prints a CASE line
+\* C13 in-place edits (thorough): histories of up to two mutator calls on the parse of the one-atom and of the three-atom
+\* relation, of up to three on the parse of a bare name (the nested lists come in by key assignment / by inserted
+\* atoms and are edited afterwards); the plain formatter; every state prints a CASE line
 CONSTANTS
   MaxConj = 0
   MaxAlt = 0
@@ -20,7 +21,7 @@ CONSTANTS
   Remember = "no"
   Forgets = {}
   Starts = {"one", "two", "bare"}
-  DeepStarts = {"one", "bare"}
+  DeepStarts = {"bare"}
   MaxEdits = 3
 SPECIFICATION ESpec
 INVARIANT EditProps
